@@ -27,6 +27,13 @@ class Case:
         self.line = line
         self.tag = tag
         self.meta = meta or {}
+        if meta is None and line.startswith("parse "):
+            # replayed / corpus parser cases: the input bytes are all the oracles need
+            h = line.split(" ", 1)[1].strip()
+            try:
+                self.meta = dict(d=b"" if h == "." else bytes.fromhex(h))
+            except ValueError:
+                pass
 
 
 def load_replay(path):
